@@ -19,9 +19,9 @@ DIMS = [
  ("params", ["none", "one", "many", "posonly", "kwonly", "defaults", "annotated", "varargs", "request"]),
  ("body", ["return", "yield", "yield-in-with", "yield-in-async-with", "yield-in-try", "yield-in-except", "yield-in-else", "yield-in-finally", "yield-in-for", "yield-in-while", "yield-in-if", "yield-in-elif", "x=yield", "yield-from", "yield-in-nested-def", "yield-in-lambda", "try-then-yield", "if-then-yield", "for-then-yield", "while-then-yield", "with-then-yield", "try-finally-then-yield-in-if", "match-then-yield", "yield-in-match", "yield-in-try-star", "yield-in-except-star",
           "yields-in-except-and-else", "yields-in-body-and-except", "yields-in-else-and-finally", "yields-in-if-and-else", "yields-in-for-and-else", "yields-in-while-and-else",
-          "yields-in-except-star-and-else", "yields-in-two-handlers", "yields-in-two-cases", "yield-then-yield"]),
+          "yields-in-except-star-and-else", "yields-in-two-handlers", "yields-in-two-cases", "yield-then-yield", "wrapped-assignment-yield", "wrapped-annotated-assignment-yield", "wrapped-return-yield-from", "subscript-target-then-yield", "wrapped-expression-statement-yield"]),
  ("ret", ["none", "int", "mod.T", "List[int]", "Generator[int, None, None]", "Iterator[int]", "int | None", '"Fwd"', "Dict[str, List[int]]", "Generator[Dict[str, int], None, None]"]),
- ("doc", ["none", "one-line", "multi-indented", "blank-first-last", "raw", "triple-single", "not-first-statement", "non-ascii", "tab-indented"]),
+ ("doc", ["none", "one-line", "multi-indented", "blank-first-last", "raw", "triple-single", "not-first-statement", "non-ascii", "tab-indented", "whitespace-only-line-shorter-than-indent", "whitespace-only-line-longer-than-indent", "second-paragraph-deeper", "trailing-spaces-on-lines"]),
  ("style", ["decorator", "assignment"]),
  ("usage", ["test-fn", "test-method", "usefixtures-fn", "usefixtures-class", "mark-import", "pytestmark-call", "pytestmark-list", "pytestmark-tuple", "pytestmark-annotated", "indirect-true", "indirect-list", "parametrize-no-indirect", "helper-fn", "in-string-and-comment", "async-test", "kwonly-test"]),
 ]
@@ -46,10 +46,15 @@ BODIES = [
  ["for i in range(1):", "    yield 1", "else:", "    yield 2"], ["while False:", "    yield 1", "else:", "    yield 2"],
  ["try:", "    v = 1", "except* ValueError:", "    yield 1", "else:", "    yield 2"], ["try:", "    v = 1", "except ValueError:", "    yield 1", "except Exception:", "    yield 2"],
  ["match SCOPE:", "    case 'x':", "        yield 1", "    case _:", "        yield 2"], ["yield 1", "yield 2"],
+ # the yield keyword sits on a later line than the start of its statement
+ ["received = (", "    yield 1", ")"], ["received: int = (", "    yield 1", ")"], ["return (", "    yield from [1]", ")"],
+ ["state = {}", "state[", "    'sent'", "] = yield 1"], ["(", "    yield 1", ")"],
 ]
 RETS = [None, "int", "mod.T", "List[int]", "Generator[int, None, None]", "Iterator[int]", "int | None", '"Fwd"', "Dict[str, List[int]]", "Generator[Dict[str, int], None, None]"]
 DOCS = [None, ['"""One line."""'], ['"""Summary.', "", "    Indented body", "      more", '    """'], ['"""', "    Starts after blank.", "", '    """'],
-        ['r"""Raw \\d doc."""'], ["'''Single quoted.'''"], ["x0 = 1", '"""not a docstring"""'], ['"""Résumé ✓ doc."""'], ['"""Tabbed.', "", "\tbody after tab", '\t"""']]
+        ['r"""Raw \\d doc."""'], ["'''Single quoted.'''"], ["x0 = 1", '"""not a docstring"""'], ['"""Résumé ✓ doc."""'], ['"""Tabbed.', "", "\tbody after tab", '\t"""'],
+        ['"""Summary.', "  ", "    Body after a two-space line.", "    More.", '    """'], ['"""Summary.', "        ", "    Body after a long blank line.", '    """'],
+        ['"""Summary.', "", "    First paragraph.", "", "        Deeper paragraph.", "    Back.", '    """'], ['"""Summary.   ', "", "    Body with trailing spaces.   ", '    """']]
 
 def build(a):
     L = ["import pytest", "from pytest import fixture, mark", "import pytest_asyncio", "import types", "other = types.SimpleNamespace(fixture=lambda f: f)", "fixture_factory = lambda f: f", "other_deco = lambda f: f", "SCOPE = 'module'", ""]
